@@ -12,6 +12,7 @@ import (
 	"github.com/PowerDNS/lightningstream/config"
 	"github.com/PowerDNS/lightningstream/snapshot"
 	"github.com/PowerDNS/lightningstream/syncer"
+	"github.com/PowerDNS/lightningstream/syncer/hooks"
 	"github.com/PowerDNS/lmdb-go/lmdb"
 	"pgregory.net/rapid"
 
@@ -72,13 +73,24 @@ type LoopCase struct {
 	// (nothing ever expires, no marker is ever stale): its write transactions are all empty, i.e. never
 	// recorded by LMDB - Lightning Stream's own transactions of that kind must not be confused with the
 	// application's.
-	SweeperRuns   bool `json:"sweeper_runs,omitempty"`
+	SweeperRuns bool `json:"sweeper_runs,omitempty"`
+	// OwnAtStart: the instance has run before - a previous life uploaded its start data and was stopped -
+	// so its own snapshot is in the bucket at start-up and has to be loaded before anything is uploaded;
+	// its download fails a few times first, which stretches the "waiting for the own snapshot" phase.
+	// Peer snapshots are only delivered once that phase is over.
+	OwnAtStart    bool `json:"own_at_start,omitempty"`
 	ExcludedEmpty int  `json:"excluded_empty,omitempty"`
 }
 
+// The first nMainPoints are points of the main loop; "send.in-read-txn" is not a named yield point of the
+// product but Hooks.BeforeRead, i.e. inside the dump transaction of an upload - in native mode that is a
+// read transaction, during which the application can commit (in shadow mode it holds the write lock: the
+// point is not offered there).
 var loopYieldPoints = []string{"sync.iter", "sync.before-next", "sync.before-load", "load.after-txn", "sync.after-load",
-	"sync.before-info", "sync.before-send", "send.after-txn", "send.before-store", "send.after-store", "sync.after-send", "sync.before-sleep",
+	"sync.before-info", "sync.before-send", "send.in-read-txn", "send.after-txn", "send.before-store", "send.after-store", "sync.after-send", "sync.before-sleep",
 	"sync.listed", "sync.before-initial-send"}
+
+const nMainPoints = 13
 
 type loopStats struct {
 	appAt       map[string]int
@@ -153,7 +165,14 @@ func runLoopCase(c LoopCase, o *vcore.Obs) (*loopStats, error) {
 	}
 	lc := config.LMDB{SchemaTracksChanges: c.Native}
 	h := b.Handle("a")
-	nd := NewNode("a", env, h, conf, lc, syncer.Options{ReceiveOnly: c.ReceiveOnly})
+	hk := hooks.New()
+	if c.Native {
+		hk.BeforeRead = func(hooks.BeforeReadParams) error {
+			YieldAt("a", "send.in-read-txn", 0)
+			return nil
+		}
+	}
+	nd := NewNode("a", env, h, conf, lc, syncer.Options{ReceiveOnly: c.ReceiveOnly, Hooks: hk})
 	defer nd.Forget()
 	defer func() {
 		nd.Stop()
@@ -400,6 +419,31 @@ func runLoopCase(c LoopCase, o *vcore.Obs) (*loopStats, error) {
 		pending = putPeer(c.PeerAtStart)
 	}
 
+	ownPhase := false // the second life is still waiting for its own snapshot
+	if c.OwnAtStart && len(c.Start) > 0 && !c.ReceiveOnly && len(c.PeerAtStart) == 0 {
+		y0, err := nd.Start()
+		if err != nil {
+			return st, err
+		}
+		for i := 0; i < 400 && !y0.Done && y0.Point != "sync.before-sleep"; i++ {
+			if y0, err = nd.Step(); err != nil {
+				return st, err
+			}
+		}
+		if y0.Done || y0.Point != "sync.before-sleep" {
+			return st, fmt.Errorf("harness: previous life did not reach the end of its first iteration (%s)", y0.Point)
+		}
+		if !c.Native {
+			mir.Capture(1, 0) // its start-up pass (data found at start is stamped in the past)
+		}
+		nd.Stop()
+		h.SetPlan("load", []string{fault.Fail, fault.Fail, fault.Fail})
+		ownPhase = true
+	}
+	dlBase, _ := nd.Downloads()
+	if ownPhase {
+		dlBase++ // the own snapshot will be downloaded as well
+	}
 	y, err := nd.Start()
 	if err != nil {
 		return st, err
@@ -440,6 +484,7 @@ func runLoopCase(c LoopCase, o *vcore.Obs) (*loopStats, error) {
 		case "sync.before-load":
 			loading, pending = pending, nil
 		case "load.after-txn":
+			ownPhase = false // (the first load of a second life is the one of its own snapshot)
 			if !c.Native {
 				mir.Capture(nextNow(), 0) // LoadOnce captures application changes first (no-op if there are none)
 			}
@@ -461,7 +506,7 @@ func runLoopCase(c LoopCase, o *vcore.Obs) (*loopStats, error) {
 			}
 		case "sync.iter":
 			if iterations > 0 {
-				if !iterDirty && (c.Force || countStores() == storesAtIter) {
+				if !iterDirty && !ownPhase && (c.Force || countStores() == storesAtIter) {
 					quiet++
 				} else {
 					quiet = 0
@@ -483,8 +528,14 @@ func runLoopCase(c LoopCase, o *vcore.Obs) (*loopStats, error) {
 				occ++
 				fire = false
 			}
-			if a.Kind == "deliver" && iterations == 0 {
-				fire = false // the receiver only polls once the main loop runs
+			if a.Kind == "deliver" && (iterations == 0 || ownPhase) {
+				fire = false // the receiver only polls once the main loop runs; own snapshot first
+			}
+			if a.Kind == "app" && c.OwnAtStart && y.Point == "sync.listed" {
+				// before the start-up pass of a SECOND life a commit counts as "changed while the syncer was
+				// down" and competes with what the first life stamped in the past too (documented as treated
+				// differently): not part of the steady-state domain, the commit waits for the next yield
+				fire = false
 			}
 			if !fire && y.Point == "sync.iter" {
 				waitIters++
@@ -534,9 +585,27 @@ func runLoopCase(c LoopCase, o *vcore.Obs) (*loopStats, error) {
 					case "deliver":
 						// every published peer snapshot is downloaded exactly once (each is published only after
 						// the previous one was fetched): wait until the receiver has caught up with all of them
+						// Successful downloads must reach: those before this life + the own snapshot of a second
+						// life + every peer snapshot published. Each one is fetched exactly once PROVIDED the next
+						// one is only published after the previous one was fetched (the receiver skips a snapshot
+						// that is superseded before its download started) - so wait for the previous ones first.
+						waitDl := func(target int) bool {
+							deadline := time.Now().Add(20 * time.Second)
+							for time.Now().Before(deadline) {
+								if done, _ := nd.Downloads(); done >= target {
+									return true
+								}
+								time.Sleep(100 * time.Microsecond)
+							}
+							return false
+						}
+						if !waitDl(dlBase + peerSeq) {
+							return st, fmt.Errorf("%s: the peer snapshots published so far were not all downloaded within 20 s\n%s", where, goroutinesOf("lightningstream/syncer/receiver"))
+						}
 						pending = putPeer(a.Peer)
-						if !nd.WaitDownload(peerSeq-1, 0, 5*time.Second) {
-							return st, fmt.Errorf("%s: peer snapshot %s was not downloaded within 5 s", where, pending.name)
+						okDl := waitDl(dlBase + peerSeq)
+						if !okDl {
+							return st, fmt.Errorf("%s: peer snapshot %s was not downloaded within 20 s\n%s", where, pending.name, goroutinesOf("lightningstream/syncer/receiver"))
 						}
 						iterDirty = true
 					case "storefault":
@@ -757,6 +826,7 @@ func genLoopCase(t *rapid.T) LoopCase {
 	c.Sweeper = rapid.IntRange(0, 3).Draw(t, "sweeper") == 0
 	c.Force = rapid.IntRange(0, 5).Draw(t, "force") == 0
 	c.SweeperRuns = !c.Sweeper && rapid.IntRange(0, 4).Draw(t, "sweeper_runs") == 0
+	c.OwnAtStart = rapid.IntRange(0, 4).Draw(t, "own_at_start") == 0
 	nkeys := rapid.IntRange(1, 3).Draw(t, "nkeys")
 	if rapid.IntRange(0, 2).Draw(t, "start?") > 0 {
 		for i := 0; i < rapid.IntRange(1, 3).Draw(t, "nstart"); i++ {
@@ -775,7 +845,7 @@ func genLoopCase(t *rapid.T) LoopCase {
 	for i := 0; i < n; i++ {
 		a := SAct{Kind: rapid.SampledFrom([]string{"app", "app", "app", "deliver", "deliver", "storefault"}).Draw(t, "akind")}
 		if rapid.IntRange(0, 3).Draw(t, "at?") > 0 {
-			a.At = rapid.SampledFrom(loopYieldPoints[:12]).Draw(t, "at")
+			a.At = rapid.SampledFrom(loopYieldPoints[:nMainPoints]).Draw(t, "at")
 			a.Occ = rapid.SampledFrom([]int{0, 0, 0, 1}).Draw(t, "occ")
 		}
 		switch a.Kind {
@@ -818,10 +888,11 @@ type enumLoop struct {
 	Sweeper     bool `json:"sweeper,omitempty"`
 	Force       bool `json:"force,omitempty"`
 	SweeperRuns bool `json:"sweeper_runs,omitempty"`
+	OwnAtStart  bool `json:"own_at_start,omitempty"`
 }
 
 func (e enumLoop) toCase() LoopCase {
-	c := LoopCase{Native: e.Native, ReceiveOnly: e.ReceiveOnly, Sweeper: e.Sweeper, Force: e.Force, SweeperRuns: e.SweeperRuns}
+	c := LoopCase{Native: e.Native, ReceiveOnly: e.ReceiveOnly, Sweeper: e.Sweeper, Force: e.Force, SweeperRuns: e.SweeperRuns, OwnAtStart: e.OwnAtStart}
 	ts := uint64(0)
 	if e.Native {
 		ts = 20
@@ -869,9 +940,9 @@ func (e enumLoop) toCase() LoopCase {
 }
 
 func TestC03Enum(t *testing.T) {
-	points := loopYieldPoints[:12]
+	points := loopYieldPoints[:nMainPoints]
 	vcore.RunEnum(t, vcore.Config{Property: "C03", Inflight: true,
-		Rule: "fault enumeration over a fixed scenario (instance starts with two keys, a peer snapshot is merged, the application commits once, a later peer snapshot is merged, loop runs until idle): EVERY yield point (12) x kind of application change {insert, overwrite, delete, new DBI, multi-key} x {native, shadow} x {peer snapshot is a no-op, or not} x {another application commit precedes so that the iteration also captures and uploads, or not} - this covers Lightning Stream write transactions that turn out empty and ones that do not; plus the same commit next to a tomb sweeper that runs every millisecond without ever finding anything, with a forced snapshot in every iteration, with the tomb sweeper configured and stale peer markers for the keys it touches, after a same-value rewrite (a recorded application transaction with nothing to capture), and on a receive-only instance; C03 oracle after every yield, C09 oracle when idle; commits that match the listed known finding (transaction id reuse after an empty LS transaction) are deferred to the next yield and counted; " +
+		Rule: "fault enumeration over a fixed scenario (instance starts with two keys, a peer snapshot is merged, the application commits once, a later peer snapshot is merged, loop runs until idle): EVERY yield point (12 named ones + the inside of the upload's read transaction in native mode) x kind of application change {insert, overwrite, delete, new DBI, multi-key} x {native, shadow} x {peer snapshot is a no-op, or not} x {another application commit precedes so that the iteration also captures and uploads, or not} - this covers Lightning Stream write transactions that turn out empty and ones that do not; plus the same commit in a second life that still waits for its own snapshot (download failing three times), next to a tomb sweeper that runs every millisecond without ever finding anything, with a forced snapshot in every iteration, with the tomb sweeper configured and stale peer markers for the keys it touches, after a same-value rewrite (a recorded application transaction with nothing to capture), and on a receive-only instance; C03 oracle after every yield, C09 oracle when idle; commits that match the listed known finding (transaction id reuse after an empty LS transaction) are deferred to the next yield and counted; " +
 			"non-trivial = the commit fell between two LS transactions of one loop iteration"},
 		func(yield func(enumLoop) bool) {
 			for _, native := range []bool{true, false} {
@@ -892,6 +963,10 @@ func TestC03Enum(t *testing.T) {
 						}
 						// with the tomb sweeper configured: the second peer snapshot then also carries a (stale) marker
 						if !yield(enumLoop{Native: native, Point: p, Kind: k, PeerNoop: false, LocalFirst: true, Sweeper: true}) {
+							return
+						}
+						// second life: the own snapshot of a previous life has to be loaded first (its download fails thrice)
+						if !yield(enumLoop{Native: native, Point: p, Kind: k, PeerNoop: false, LocalFirst: false, OwnAtStart: true}) {
 							return
 						}
 						// with a tomb sweeper that runs all the time and never finds anything to remove
